@@ -35,6 +35,7 @@ type SpecEnv struct {
 	spkg     *ssa.Package // code lemmas: package whose real functions may be called
 	lemma    bool
 	letDepth int
+	blk      *ssa.BasicBlock // block at which the clause is evaluated (loop header for invariants)
 }
 
 func (x *Exec) evalSpec(e *SExpr, env *SpecEnv) (Term, error) {
@@ -660,6 +661,30 @@ func (env *SpecEnv) call(e *SExpr) (SpecVal, error) {
 			return SpecVal{V: tv("true"), Go: boolT}, nil
 		}
 		return SpecVal{V: tv(fmt.Sprintf("(forall ((r Int)) (=> (and (<= 0 r) (< r %s)) (= (select %s r) (select %s r))))", x.init["alloc"], cur, ini)), Go: boolT}, nil
+	case "visited":
+		// visited(k): key k has already been produced by the map iteration of the loop
+		// whose invariant is being evaluated
+		if len(args) != 1 {
+			return SpecVal{}, fmt.Errorf("visited(key)")
+		}
+		if env.blk == nil {
+			return SpecVal{}, fmt.Errorf("visited() is only meaningful in the invariant of a map-range loop")
+		}
+		for _, ins := range env.blk.Instrs {
+			if nx, ok := ins.(*ssa.Next); ok {
+				if rng, ok := nx.Iter.(*ssa.Range); ok {
+					if mt, ok := rng.X.Type().Underlying().(*types.Map); ok {
+						svn := x.iterSV[rng]
+						if svn == "" {
+							return SpecVal{}, fmt.Errorf("visited(): iterator not initialised")
+						}
+						ks := x.smt.sortOf(mt.Key())
+						return SpecVal{V: tv("(select " + x.getSV(svn, "(Array "+ks+" Bool)") + " " + env.term(args[0]) + ")"), Go: boolT}, nil
+					}
+				}
+			}
+		}
+		return SpecVal{}, fmt.Errorf("visited(): the loop does not range over a map")
 	case "same":
 		// identity (SMT =), as opposed to Go's == which is fp.eq on floats
 		if len(args) != 2 {
@@ -725,7 +750,7 @@ func (env *SpecEnv) call(e *SExpr) (SpecVal, error) {
 
 // specEnvAt builds the environment for the function's own contract at block b.
 func (x *Exec) specEnvAt(b *ssa.BasicBlock, rp *retPoint) *SpecEnv {
-	env := &SpecEnv{vars: map[string]SpecVal{}, x: x, st: x.st, old: x.init}
+	env := &SpecEnv{vars: map[string]SpecVal{}, x: x, st: x.st, old: x.init, blk: b}
 	if x.c != nil {
 		env.lets = x.c.Lets
 	}
@@ -748,6 +773,13 @@ func (x *Exec) specEnvAt(b *ssa.BasicBlock, rp *retPoint) *SpecEnv {
 					if v, ok := x.vals[i]; ok && v.Loc != nil && (v.Loc.Kind == LCell || v.Loc.Kind == LBox) {
 						if _, dup := env.vars[i.Comment]; !dup {
 							env.vars[i.Comment] = SpecVal{Cell: v.Loc, Go: i.Type().(*types.Pointer).Elem()}
+						}
+					} else if ok && v.Loc == nil && v.T != "" {
+						// a local struct variable: named by its reference (fields read through the heap)
+						if _, isStruct := i.Type().(*types.Pointer).Elem().Underlying().(*types.Struct); isStruct {
+							if _, dup := env.vars[i.Comment]; !dup {
+								env.vars[i.Comment] = SpecVal{V: v, Go: i.Type()}
+							}
 						}
 					}
 				}
